@@ -16,6 +16,7 @@ package coordinator
 // (every marker exactly once on success, an error when a shard has no live owner) are evaluated here.
 
 import (
+	"bytes"
 	"context"
 	"encoding/binary"
 	"encoding/json"
@@ -1827,4 +1828,53 @@ func TestVerifFanoutRPC(t *testing.T) {
 		t.Fatal(err)
 	}
 	vtrace.Done("TestVerifFanoutRPC", map[string]interface{}{"calls": checked})
+}
+
+// TestVerifFanoutStoreStream: the frame stream of a remote storage read (ReadFilter / ReadGroup) that is cut -
+// at a frame boundary or inside a frame - must not look like a complete stream to the reader.
+func TestVerifFanoutStoreStream(t *testing.T) {
+	var full bytes.Buffer
+	snd := NewStoreStreamSender(&full)
+	for i := 1; i <= 2; i++ {
+		rr := &datatypes.ReadResponse{Frames: []datatypes.ReadResponse_Frame{{Data: &datatypes.ReadResponse_Frame_Series{
+			Series: &datatypes.ReadResponse_SeriesFrame{DataType: datatypes.DataTypeFloat, Tags: []datatypes.Tag{{Key: []byte("shard"), Value: []byte(fmt.Sprintf("k%d", i))}}}}}}}
+		if err := snd.Send(rr); err != nil {
+			t.Fatal(err)
+		}
+	}
+	b := full.Bytes()
+	half := len(b) / 2 // both messages have the same length: the boundary between them
+	count := func(data []byte) (int, error) {
+		rcv := NewStoreStreamReceiver(bytes.NewReader(data))
+		n := 0
+		for {
+			rr, err := rcv.Recv()
+			if err == io.EOF {
+				return n, nil
+			}
+			if err != nil {
+				return n, err
+			}
+			if rr != nil {
+				n += len(rr.Frames)
+			}
+		}
+	}
+	if n, err := count(b); err != nil || n != 2 {
+		t.Fatalf("complete stream: %d frames, %v", n, err)
+	}
+	// The sender writes no end marker unless it has statistics: a cut at a frame boundary cannot be told from
+	// the end.  A cut inside a frame can.
+	cases := map[string][]byte{"cutFrame": b[:half], "cutMid-header": b[:half+5], "cutMid-body": b[:len(b)-3]}
+	checked := 0
+	for name, data := range cases {
+		n, err := count(data)
+		checked++
+		if err == nil && n < 2 {
+			cls := strings.SplitN(name, "-", 2)[0]
+			vtrace.Mismatch("eof-clean:storage:"+cls, fmt.Sprintf("storage read stream cut (%s): the receiver reports a clean end after %d of 2 frames", name, n),
+				map[string]interface{}{"storestream": name})
+		}
+	}
+	vtrace.Done("TestVerifFanoutStoreStream", map[string]interface{}{"cases": checked})
 }
